@@ -1,13 +1,18 @@
 import AmaranthVerif.Model.Sexp
 import AmaranthVerif.Model.Memory
 import AmaranthVerif.Spec.MemoryRows
+import AmaranthVerif.Model.MemoryRename
 
 /-!
 # Driver for C11 (`amodel_c11`): one request per line, one response per line (unverified I/O glue)
 
 * `(walk <cfg> <state> <op>*)`
   `cfg   = (cfg <width> <u|s> <depth> (<init row>*) (doms (<p|n> <none|sync|async>)*)
-            (rds (<dom|-1> (<write port index>*))*) (wrs (<dom> <gran> <enw>)*) (rdinit <int>*))`
+            (rds (<dom|-1> (<write port index>*))*) (wrs (<dom> <gran> <enw>)*) (rdinit <int>*) [(rename (<src> <dst>)*)])`
+          with `(rename …)` the port domains are the ones the ports were *declared* in and the memory sits under
+          `DomainRenamer({src: dst, …})`: the walk is evaluated on `Cfg.rename` of the declared configuration
+          (the declared configuration must pass `readPortsCheck` too: the constructors run before the renamer), and
+          the first response item is `init=<rows>|<rd>|<final domain of every write port>|<… of every read port, -1 = comb>`
   `state = (state (<row>*) (<read data>*) (<clk 0|1>*) (<rst 0|1>*))`     what the testbench observed
   `op    = (ev (wr (<addr> <data> <en>)*) (rd (<addr> <en>)*) (clk <0|1>*) (rst <0|1>*) <state-after>)`
          | `(tbw (wr …) (rd …) <i> <start> <stop> <v> <state-after>)`      `ctx.set(mem[i][start:stop], v)`; `i` any integer:
@@ -75,6 +80,21 @@ def parseCfg : Sexp → Option Cfg
     some ⟨⟨w, sg⟩, d, ← Sexp.ints? ini, ← doms.mapM parseDom, ← rds.mapM parseRd, ← wrs.mapM parseWr,
           ← Sexp.ints? rdi⟩
   | _ => none
+
+/-- `(cfg … )` or `(cfg … (rename (src dst)*))` → the declared configuration and the renamer's map -/
+def parseCfgRen : Sexp → Option (Cfg × Option (List (Nat × Nat)))
+  | .list [a, w, sg, d, ini, doms, rds, wrs, rdi, .list (.atom "rename" :: es)] => do
+    let c ← parseCfg (.list [a, w, sg, d, ini, doms, rds, wrs, rdi])
+    let m ← es.mapM fun e => match e with
+      | .list [s, t] => do some (← s.toNat?, ← t.toNat?)
+      | _ => none
+    some (c, some m)
+  | x => do some (← parseCfg x, none)
+
+def showPortDoms (c : Cfg) : String :=
+  let ws := commas (c.wrs.map fun w => (w.dom : Int))
+  let rs := commas (c.rds.map fun r => match r.dom with | some d => (d : Int) | none => -1)
+  s!"|{ws}|{rs}"
 
 def parseState : Sexp → Option State
   | .list [.atom "state", .list rows, .list rd, .list clk, .list rst] => do
@@ -191,14 +211,19 @@ def showExcept : Except String Unit → String
 def respond (line : String) : String :=
   match Sexp.parse line with
   | some (.list (.atom "walk" :: cfg :: st :: ops)) =>
-    match parseCfg cfg, parseState st with
-    | some c, some s =>
+    match parseCfgRen cfg, parseState st with
+    | some (c0, ren), some s =>
+      match readPortsCheck c0.wrs c0.rds with
+      | .error e => s!"error cfg-rejected:{e}"
+      | .ok _ =>
+      let c := match ren with | some m => c0.rename m | none => c0
       let i := init c
       match readPortsCheck c.wrs c.rds with
       | .error e => s!"error cfg-rejected:{e}"
       | .ok _ =>
       match walkOps c s ops [] with
-      | some items => s!"init={showState i.rows (readData c i ⟨[], []⟩)}" ++ String.join (items.map fun x => ";" ++ x)
+      | some items => s!"init={showState i.rows (readData c i ⟨[], []⟩)}" ++ (if ren.isSome then showPortDoms c else "") ++
+          String.join (items.map fun x => ";" ++ x)
       | none => "error bad-op"
     | _, _ => "error bad-cfg"
   | some (.list [.atom "enw", k, g]) =>
